@@ -158,6 +158,49 @@ def inplace_program_fails(order, pt, v):
     return None
 
 
+def workarray_fails(case):
+    """a work array wrapped by hand (acc = Function(UTPM(zeros)); acc += x; acc += x*x; y = acc*acc -- the idiom of the library's
+    own tests and of documentation/examples/covariance_matrix_computation.py): every identical (forward, reverse) pair answers
+    the same, y = (p + p^2)^2 and xbar = ybar * 2(p + p^2)(1 + 2p)"""
+    D, P = case['D'], case['P']
+    x0, pt, yb = np.array(case['rec']), np.array(case['pt']), np.array(case['ybar'])
+    cg = algopy.CGraph()
+    fx = algopy.Function(UTPM(x0.copy()))
+    acc = algopy.Function(UTPM(np.zeros(x0.shape)))
+    if case['form'] == 'iadd':
+        acc += fx
+        acc += fx * fx
+    elif case['form'] == 'view-iadd':
+        lo, hi = acc[:1], acc[1:]                    # the updates go through views of the work array
+        lo += fx[:1]
+        hi += fx[1:]
+        acc += fx * fx
+    else:
+        acc[...] = acc + fx
+        acc[...] = acc + fx * fx
+    fy = acc * acc
+    cg.trace_off()
+    cg.independentFunctionList = [fx]
+    cg.dependentFunctionList = [fy]
+    p_ = UTPM(pt.copy())
+    s_ = p_ + p_ * p_
+    want_y = (s_ * s_).data
+    want_xbar = (UTPM(yb.copy()) * 2.0 * s_ * (1.0 + 2.0 * p_)).data
+    for k in range(case['n']):
+        try:
+            cg.pushforward([UTPM(pt.copy())])
+            y = np.array(fy.x.data)
+            cg.pullback([UTPM(yb.copy())])
+            xb = np.array(fx.xbar.data)
+        except Exception as ex:
+            return 'workarray-exception: call %d raised %s' % (k + 1, type(ex).__name__ + ':' + str(ex)[:60])
+        if not close(y, want_y, 1e-10):
+            return 'workarray-forward: forward evaluation number %d of the same point differs from the program value (max diff %s)' % (k + 1, maxdiff(y, want_y))
+        if not close(xb, want_xbar, 1e-10):
+            return 'workarray-reverse: reverse sweep number %d with the same seed differs from the adjoint (max diff %s)' % (k + 1, maxdiff(xb, want_xbar))
+    return None
+
+
 def history_fails(case):
     prog, N = case['prog'], case['N']
     try:
@@ -287,6 +330,8 @@ def replay_case(ctx, case):
         return docgraph_fails(case['docgraph'])
     if 'inplace_program' in case:
         return inplace_program_fails(case['inplace_program'], case['pt'], case['v'])
+    if case.get('op') == 'workarray':
+        return workarray_fails(case)
     return history_fails(case)
 
 
@@ -300,6 +345,15 @@ def run(ctx):
         f = docgraph_fails(order)
         if f:
             ctx.report({'docgraph': order}, 'failure', f)
+    for form in ('iadd', 'setitem', 'view-iadd'):
+        for D_, P_ in ((1, 1), (2, 2)):
+            case = {'op': 'workarray', 'form': form, 'D': D_, 'P': P_, 'n': 3, 'rec': rand_coeffs(rng, (D_, P_, 3), -2, 2),
+                    'pt': rand_coeffs(rng, (D_, P_, 3), -2, 2), 'ybar': rand_coeffs(rng, (D_, P_, 3), -1, 1) + 0.125}
+            ctx.evaluations += 1
+            ctx.count('hand-wrapped-work-array')
+            f = workarray_fails(case)
+            if f:
+                ctx.report(case, 'failure', f)
     names2 = ['gradient', 'jacobian', 'jacobian-utpm', 'hess_vec', 'jacobian-utpm-same-object']
     for i in range(12 if ctx.tier == 'quick' else 120):
         order = (['jacobian-utpm-same-object'] * 3) if i == 0 else [rng.choice(names2) for _ in range(rng.randint(2, 5))]
